@@ -42,3 +42,7 @@ TABLE["C19"] = dict(engine="component", technique="property-based testing + exha
 TABLE["C12"] = dict(engine="component", technique="property-based testing: Hypothesis-generated record sequences (all types, 32-bit boundary ids, payload sizes around the Noise packet limits), tape-chosen chunkings and hostile byte-stream variants against a real DilatedConnectionProtocol pair with real Noise; round-trip oracle and nothing-surfaced-after-hostile-element oracle",
     text="Both ends are the real protocol objects built by Connector.build_protocol (framer, record layer, Noise), joined by byte pipes; the manager is a recording stub, so 'reaching the manager' is observed directly. Hostile variants are produced by a party that does not hold the dilation key.",
     note=COMP_NOTE + " The Noise implementation in use (noiseprotocol if importable, else the /verif shim self-tested by setup) is trusted as an AEAD.")
+
+TABLE["C06"] = dict(engine="component", technique="property-based testing: Hypothesis-generated record sequences, chunkings, receive modes and single-point ciphertext manipulations against a real transit Connection pair after a real handshake; prefix-up-to-first-manipulation oracle + dropped/pending-reads-fail oracle",
+    text="Both ends are real transit.Connection objects owned by real TransitSender/TransitReceiver (real key derivation, real SecretBox), joined by byte pipes under tape-chosen chunking; the manipulating party works on the framed ciphertext without the key.",
+    note=COMP_NOTE)
